@@ -167,6 +167,8 @@ type Sim struct {
 	faultsOn bool
 }
 
+var debugTape = os.Getenv("VERIF_DEBUG_TAPE") != ""
+
 func (s *Sim) now() time.Duration { return time.Since(s.start) }
 
 // failedNow: a violation was recorded since the current base (known findings
@@ -506,6 +508,17 @@ func (s *Sim) loop(goal func() bool, maxSim time.Duration) {
 		synctest.Wait()
 		if s.afterQ != nil {
 			s.afterQ()
+		}
+		if debugTape {
+			st := ""
+			for _, n := range s.liveNodes() {
+				rs := rsOf(n)
+				st += fmt.Sprintf(" n%d:h%d/r%d/s%d/p%v/pend%d", n.ID, rs.Height, rs.Round, rs.Step, rs.Proposal != nil, n.TxPool.PendingSize())
+			}
+			for _, m := range s.q {
+				st += fmt.Sprintf(" [%d>%d %s @%.3f]", m.Src, m.Dst, m.Desc, m.At.Seconds())
+			}
+			fmt.Printf("      Q tape=%d step=%d q=%d%s\n", s.tape.Used(), s.steps, len(s.q), st)
 		}
 		s.flushOutbox()
 		s.mon.afterQuiescence()
